@@ -10,7 +10,7 @@ sequential result; any report of the race detector is a violation."""
 
 def run(ctx):
     th = ctx.thorough
-    for w, mn in [("W2", 900), ("W2b", 3400), ("W3", 5200)] + ([("W2c", 100000)] if th else []) + ([("W3b", 500000)] if th else []):
+    for w, mn in [("W2", 900), ("W2b", 3400), ("W3", 5200)] + ([("W3b", 500000)] if th else []):
         r = ctx.tlc("conc-" + w, "mc/MC_Conc.tla", "mc/MC_Conc_%s.cfg" % w, min_states=mn, timeout=3000, heap="8g")
         ctx.replay("conc-%s-gated" % w, "conc", r["dump"], race=True, min_cases=mn // 5, workers=8)
     for g, procs, iters in [(2, 1, 3000), (4, 2, 2000), (16, 16, 1500)] + ([(16, 4, 20000), (64, 16, 5000)] if th else []):
